@@ -254,7 +254,7 @@ theorem withdraw_refused_until_verified_or_rolled_back (s : St) (ops : List Op) 
   exact ⟨this.1, this.2.1⟩
 
 /-- the same with the designation made before the run -/
-theorem withdraw_refused_until_verified_or_rolled_back' (s : St) (ops : List Op) (a : Addr) (c h ra : Nat) (q' : Core.Seq)
+theorem withdraw_refused_until_verified_or_rolled_back_designated (s : St) (ops : List Op) (a : Addr) (c h ra : Nat) (q' : Core.Seq)
     (hin : (a, c, h) ∈ s.signerSet) (hc : lookup s.r2c ra = some c) (hquiet : Quiet s ops c h)
     (hq' : Core.getSeq (run s ops).core a = some q') (hra : q'.rollapp = ra) (ds : List (Nat × Option Nat)) :
     (∀ amt, (coreOp (run s ops) (.bondDec a amt) ds).2 ≠ .ok) ∧
